@@ -644,6 +644,22 @@ func (e *executor) exec(op hcOp) *stepResult {
 		r.Handler, r.Target = "RemoveContainer", c.ID
 		r.Err = p.RemoveContainer(bg, m.nriPod(m.pods[c.Pod]), m.nriCtr(c))
 
+	case "removelive":
+		// a container removed without ever having been stopped (e.g. created, never started)
+		c, ok := pick(m.live(), op.A)
+		if !ok {
+			r.Noop = true
+			return r
+		}
+		c.State = stRemoved
+		r.Handler, r.Target = "RemoveContainer", c.ID
+		r.Err = p.RemoveContainer(bg, m.nriPod(m.pods[c.Pod]), m.nriCtr(c))
+		r.Pushes = e.h.stub.takePushes() // the reply cannot carry updates of other containers
+		r.collect(m, "")
+		if r.Err == nil && len(r.Pushes) > 0 {
+			e.failedPending, e.eventPending = false, false
+		}
+
 	case "stoppod":
 		pod, ok := pick(m.podsIn("running"), op.A)
 		if !ok {
